@@ -71,6 +71,9 @@ func (b *Builder) Insert(key []byte, value uint64) error {
 	if len(key) > math.MaxUint16 {
 		return fmt.Errorf("key is too long: %d bytes", len(key))
 	}
+	if intWidth(value) > intWidth(b.FileSize) {
+		return fmt.Errorf("value %d does not fit the offset width of the index", value)
+	}
 	return b.buckets[b.Header.BucketHash(key)].writeTuple(key, value)
 }
 
